@@ -95,6 +95,7 @@ StepCreate(s, ev, within, at) ==
                w1 == [w EXCEPT !.alive = (t :> [a |-> a, vals |-> ev.vals]) @@ @,
                                !.issued = @ \cup {t},
                                !.evc[a + 1] = @ \cup {t},
+                               !.cr[a + 1] = @ + 1,
                                !.wrapped[a + 1] = @ \/ wrapNow]
                viol1 ==
                     If(t[1] # C!IdOf(a), {V(<<"C14", "C15">>, at, "created handle reports a foreign archetype id")})
@@ -120,7 +121,8 @@ StepDestroy(s, ev, at) ==
     LET w   == s.W[ev.w]
         ky  == ev.key
         tag == ev.out[1]
-        acc == C!Accepted(w, ky)
+        acc == C!Accepted(w, ky)          \* the key may be accepted
+        must == C!MustAccept(w, ky)       \* the key must be accepted
         t   == IF acc THEN C!Target(w, ky) ELSE <<>>
         vals == IF acc THEN w.alive[t].vals ELSE <<>>
         removed == tag \in {"unit", "vals"} \/ (tag = "p" /\ ev.fault /\ acc /\ ~C!OverflowDue(w, t)
@@ -129,7 +131,7 @@ StepDestroy(s, ev, at) ==
         viol1 ==
              If(tag = "skip", {})
         \cup If(tag \in {"unit", "vals"} /\ ~acc, {V(C!WrongAccept(w, ky), at, "destroy accepted a key that must be rejected")})
-        \cup If(tag = "n" /\ acc, {V(C!WrongReject(w, ky), at, "destroy rejected a key that must be accepted")})
+        \cup If(tag = "n" /\ must, {V(C!WrongReject(w, ky), at, "destroy rejected a key that must be accepted")})
         \cup If(tag = "vals" /\ acc /\ ev.out[2] # vals, {V(<<"C02">>, at, "destroy returned values other than the entity's own")})
         \cup If(tag = "p" /\ ~(C!Foreign(w, ky) \/ (acc /\ C!OverflowDue(w, t)) \/ (acc /\ ev.fault)),
                 {V(<<"C10", "C01">>, at, "destroy panicked without a documented reason")})
@@ -146,13 +148,14 @@ StepToDirect(s, ev, at) ==
         ky  == ev.key
         tag == ev.out[1]
         acc == C!Accepted(w, ky)
+        must == C!MustAccept(w, ky)
         t   == IF acc THEN C!Target(w, ky) ELSE <<>>
         w1 == IF acc /\ tag = "d"
-              THEN [w EXCEPT !.dirs = @ \cup {[d |-> ev.out[2], t |-> t, a |-> w.alive[t].a, born |-> w.rm[w.alive[t].a + 1], src |-> "op"]}]
+              THEN [w EXCEPT !.dirs = @ \cup {[d |-> ev.out[2], t |-> t, a |-> w.alive[t].a, born |-> w.rm[w.alive[t].a + 1], bornc |-> w.cr[w.alive[t].a + 1], src |-> "op"]}]
               ELSE w
         viol1 ==
              If(tag = "d" /\ ~acc, {V(C!WrongAccept(w, ky), at, "to_direct accepted a key that must be rejected")})
-        \cup If(tag = "n" /\ acc, {V(C!WrongReject(w, ky), at, "to_direct rejected a key that must be accepted")})
+        \cup If(tag = "n" /\ must, {V(C!WrongReject(w, ky), at, "to_direct rejected a key that must be accepted")})
         \cup If(tag = "d" /\ acc /\ C!IsDirKey(ky) /\ ev.out[2] # ky.k, {V(<<"C09">>, at, "to_direct of a direct key returned a different handle")})
         \cup If(tag = "p" /\ ~C!Foreign(w, ky), {V(<<"C10", "C01">>, at, "to_direct panicked on a handle of this world")})
     IN Finish(s, [s.W EXCEPT ![ev.w] = w1], ev, {}, TRUE, ev.w, {}, viol1, {}, 0, at)
@@ -162,12 +165,13 @@ StepWrite(s, ev, at) ==
         ky  == ev.key
         tag == ev.out[1]
         acc == C!Accepted(w, ky)
+        must == C!MustAccept(w, ky)
         t   == IF acc THEN C!Target(w, ky) ELSE <<>>
         w1 == IF acc /\ tag = "ok"
               THEN [w EXCEPT !.alive[t].vals = C!SetVals(@, {ev.col + 1}, ev.p)] ELSE w
         viol1 ==
              If(tag = "ok" /\ ~acc, {V(C!WrongAccept(w, ky), at, "mutable access accepted a key that must be rejected")})
-        \cup If(tag = "n" /\ acc, {V(C!WrongReject(w, ky), at, "mutable access rejected a key that must be accepted")})
+        \cup If(tag = "n" /\ must, {V(C!WrongReject(w, ky), at, "mutable access rejected a key that must be accepted")})
         \cup If(tag = "p" /\ ~C!Foreign(w, ky), {V(<<"C10", "C01">>, at, "mutable access panicked on a handle of this world")})
     IN Finish(s, [s.W EXCEPT ![ev.w] = w1], ev, {}, TRUE, ev.w, {}, viol1, {}, 0, at)
 
@@ -196,14 +200,15 @@ StepFind(s, ev, at) ==
         acc  == C!Accepted(w, ky)
         t    == IF acc THEN C!Target(w, ky) ELSE <<>>
         matched == C!Matched(C!DeclSeq, C!QParams(q))
-        runs == acc /\ (w.alive[t].a + 1) \in matched
+        runs == acc /\ (w.alive[t].a + 1) \in matched             \* the closure may run
+        mustRun == C!MustAccept(w, ky) /\ runs                     \* ... and must run
         f    == C!FoldVisits(w, q, ev.visits, 1, {}, ev.set, FALSE, at)
         tag  == ev.out[1]
         n    == Len(ev.visits)
         viol1 ==
              If(tag = "some" /\ ~acc, {V(C!WrongAccept(w, ky), at, "find accepted a key that must be rejected")})
         \cup If(tag = "some" /\ acc /\ ~runs, {V(<<"C05">>, at, "find ran its closure on an entity of an unmatched archetype")})
-        \cup If(tag = "n" /\ runs, {V(C!WrongReject(w, ky) \o <<"C05">>, at, "find returned None for a live entity of a matched archetype")})
+        \cup If(tag = "n" /\ mustRun, {V(C!WrongReject(w, ky) \o <<"C05">>, at, "find returned None for a live entity of a matched archetype")})
         \cup If((tag = "some" /\ n # 1) \/ (tag = "n" /\ n # 0), {V(<<"C05", "C06">>, at, "find closure did not run exactly once iff found")})
         \cup If(n = 1 /\ acc /\ ev.visits[1].tok # t, {V(<<"C01", "C09">>, at, "find reached a different entity than the key designates")})
         \cup If(tag = "p" /\ ~(C!Foreign(w, ky) \/ (ev.fault /\ runs)), {V(<<"C10">>, at, "find panicked without an injected fault")})
@@ -238,6 +243,59 @@ StepClone0(s, ev, at) ==
 StepClone(s, ev, at) ==
     LET r == StepClone0(s, ev, at) IN
     [st |-> r.st, v |-> {[x EXCEPT !.p = IF "TOOL" \in SeqSet(@) THEN @ ELSE @ \o <<"C13">>] : x \in r.v}]
+
+\* dst.<archetype a>.clone_from(&src.<archetype a>): on success dst's archetype a is a copy of src's
+\* (tokens, values re-identified through the clone pairs, capacity, counters, direct records,
+\* pending events); its previous entities are gone and their values dropped.  After a panic (injected
+\* Clone / Drop fault) the archetype must be observed either unchanged or empty (C10), everything
+\* dropped or leaked exactly once.
+StepArchCloneFrom(s, ev, at) ==
+    LET ws   == s.W[ev.w]
+        wd   == s.W[ev.dst]
+        a    == ev.a
+        from == {ev.clones[i][1] : i \in DOMAIN ev.clones}
+        to   == {ev.clones[i][2] : i \in DOMAIN ev.clones}
+        map  == [x \in from |-> (CHOOSE i \in DOMAIN ev.clones : ev.clones[i][1] = x)]
+        newId(x) == IF x = 0 THEN 0 ELSE IF x \in from THEN ev.clones[map[x]][2] ELSE -x
+        srcA == C!LiveOn(ws, a)
+        dstA == C!LiveOn(wd, a)
+        srcIds == UNION {C!Ids(ws.alive[t].vals) : t \in srcA}
+        oldIds == UNION {C!Ids(wd.alive[t].vals) : t \in dstA}
+        keepAlive == [t \in DOMAIN wd.alive \ dstA |-> wd.alive[t]]
+        copied == [t \in srcA |-> [a |-> a, vals |-> [i \in DOMAIN ws.alive[t].vals |->
+                                      <<newId(ws.alive[t].vals[i][1]), ws.alive[t].vals[i][2]>>]]]
+        isA(t) == t[1] = C!IdOf(a)
+        wOk == [wd EXCEPT !.alive = copied @@ keepAlive,
+                          !.issued = {t \in @ : ~isA(t)} \cup {t \in ws.issued : isA(t)},
+                          !.cap[a + 1] = ws.cap[a + 1], !.rm[a + 1] = ws.rm[a + 1], !.cr[a + 1] = ws.cr[a + 1],
+                          !.dirs = {r \in @ : r.a # a} \cup {r \in ws.dirs : r.a = a},
+                          \* the overwritten archetype takes over the source's history: direct tokens of the
+                          \* old contents are foreign values from now on
+                          !.deadD = {x \in @ : x[1] # C!IdOf(a)} \cup {x \in ws.deadD : x[1] = C!IdOf(a)},
+                          !.evc[a + 1] = ws.evc[a + 1], !.evd[a + 1] = ws.evd[a + 1],
+                          !.aver[a + 1] = ws.aver[a + 1], !.wrapped[a + 1] = ws.wrapped[a + 1], !.awrapped[a + 1] = ws.awrapped[a + 1]]
+        \* after a panic the archetype may be found emptied: its direct handles are dead then
+        wEmpty == [wd EXCEPT !.alive = keepAlive, !.dirs = {r \in @ : r.a # a},
+                             !.deadD = @ \cup {r.d : r \in {x \in wd.dirs : x.a = a}}]
+        od == CHOOSE o \in SeqSet(ev.obs) : o.w = ev.dst
+        fullClone == from = srcIds /\ Cardinality(to) = Len(ev.clones) /\ Len(ev.clones) = Cardinality(from)
+        \* `*self = source.clone()` completes the assignment even when dropping the old contents
+        \* panics: after a panic the archetype may be unchanged, emptied, or fully replaced
+        replaced == fullClone /\ od.ar[a + 1].len = Cardinality(srcA)
+                    /\ (srcA # {} \/ dstA = {} \/ od.ar[a + 1].cap = ws.cap[a + 1])
+                    /\ \A i \in DOMAIN od.ar[a + 1].snap : C!Ids(od.ar[a + 1].snap[i][2]) \subseteq to
+        emptied == ~replaced /\ od.ar[a + 1].len = 0 /\ dstA # {}
+    IN IF ev.out[1] = "ok"
+       THEN Finish(s, [s.W EXCEPT ![ev.dst] = wOk], ev, oldIds, TRUE, -1, {},
+                   If(~fullClone,
+                      {V(<<"C04", "C13">>, at, "archetype clone_from did not clone each live component exactly once")}), {}, 0, at)
+       ELSE IF replaced
+       THEN Finish(s, [s.W EXCEPT ![ev.dst] = wOk], ev, oldIds, FALSE, -1, {},
+                   If(~ev.fault, {V(<<"C10", "C11">>, at, "archetype clone_from panicked without an injected fault")}),
+                   oldIds \ SeqSet(ev.drops), C!ZCount(wd), at)
+       ELSE Finish(s, [s.W EXCEPT ![ev.dst] = IF emptied THEN wEmpty ELSE wd], ev, to \cup oldIds, FALSE, -1, {},
+                   If(~ev.fault, {V(<<"C10", "C11">>, at, "archetype clone_from panicked without an injected fault")}),
+                   (to \cup (IF emptied THEN oldIds ELSE {})) \ SeqSet(ev.drops), ev.zc + (IF emptied THEN C!ZCount(wd) ELSE 0), at)
 
 StepDropWorld(s, ev, at) ==
     LET w == s.W[ev.w]
@@ -291,6 +349,7 @@ Step0(s, ev, at) ==
       [] ev.op = "loop"          -> StepLoop(s, ev, at)
       [] ev.op = "find"          -> StepFind(s, ev, at)
       [] ev.op = "clone"         -> StepClone(s, ev, at)
+      [] ev.op = "arch_clone_from" -> StepArchCloneFrom(s, ev, at)
       [] ev.op = "drop_world"    -> StepDropWorld(s, ev, at)
       [] ev.op = "clear_events"  -> StepClearEvents(s, ev, at)
       [] ev.op = "preset"        -> StepPreset(s, ev, at)
